@@ -24,6 +24,11 @@ import (
 	"github.com/pion/turn/v5/verif/rep"
 )
 
+// The live heap of every part is a few MB while the codecs under test allocate
+// on every call; with the default GC pacing the collector would run
+// continuously (and 16 shard processes would fight over the cores).
+func init() { debug.SetGCPercent(2000) }
+
 // pad4 rounds n up to a multiple of four.
 func pad4(n int) int { return (n + 3) &^ 3 }
 
@@ -52,6 +57,19 @@ func addClass(r *rep.Report, k string, n int64) {
 		// writer and every part of this check is single-goroutine.
 		r.Classes[k] += n - 1
 	}
+}
+
+// gate limits the cost of a defect that fires for millions of inputs: after
+// the first few occurrences of a signature only the count is kept.
+type gate map[string]int
+
+// full counts one occurrence of sig; it reports true once enough detailed
+// violations of that signature were written (the caller then records a bare
+// Violation carrying only the signature, which the report merely counts).
+func (g gate) full(sig string) bool {
+	g[sig]++
+
+	return g[sig] > 2
 }
 
 // hexs prints at most the first 48 bytes of b.
